@@ -159,9 +159,9 @@ def run(ctx):
         for kind in KINDS:
             for _ in range(ctx.n(8, 60)):
                 cases.append(gen_case(rng, kind=kind))
-        for _ in range(ctx.n(300, 4500)):
+        for _ in range(ctx.n(700, 9000)):
             cases.append(gen_case(rng))
-        for _ in range(ctx.n(10, 250)):
+        for _ in range(ctx.n(20, 400)):
             cases.append(gen_case(rng, nmax=40))
         for c in base.tiny_tables(ctx, 3):
             cases.append(c)
@@ -176,4 +176,4 @@ def run(ctx):
 
 def replay(ctx, data):
     with base.one_thread():
-        base.check_cases(ctx, [dict(data)], area='C09', extra=extra)
+        base.check_cases(ctx, [dict(data.get('case', data))], area='C09', extra=extra)
